@@ -60,7 +60,7 @@ MANIFEST = dict(
               "event log + argument provenance",
 )
 FLOORS = {"C01.1": 1, "C01.2": 6, "C01.3": 18, "C01.4": 8, "C01.5": 25,
-          "C01.6": 20, "C01.7": 12}
+          "C01.6": 20, "C01.7": 12, "C01.8": 4}
 
 APE = "evo.core.metrics.APE"
 
@@ -70,14 +70,14 @@ def _guarded_by_length(ctx, res: Result, rule: str, clsname: str):
     est_n = tm.attr(mm.EST, "num_poses")
     raises = [e for e in res.of_kind("raise")
               if "MetricsException" in (e.data.get("exc_name") or "")]
-    guard = None
+    cands = []
     for e in raises:
         for a in tm.atoms(e.live):
             if a.op == "cmp" and {a.args[1], a.args[2]} == {ref_n, est_n}:
-                guard = (e, a)
-    ok = guard is not None
-    if ok:
-        e, a = guard
+                cands.append((e, a))
+    ok = False
+    for (e, a) in cands:      # any raise that does the job (later raises
+        #                       mention the comparison negated in their path)
         uneq = a.args[0] == "NotEq"
         writes = [w for w in res.of_kind("setattr")
                   if w.data["base"] is mm.SELF and
@@ -89,6 +89,8 @@ def _guarded_by_length(ctx, res: Result, rule: str, clsname: str):
                 w.idx > e.idx and tm.fold(
                     w.live, lambda t: uneq if t is a else None) is False
                 for w in writes)
+        if ok:
+            break
     ctx.ob(rule, res.func, ok,
            f"{clsname}.process_data: unequal pose counts raise "
            f"MetricsException before any error value is written" if ok else
@@ -236,6 +238,7 @@ def check(ctx):
     ctx.section(_run_wiring, ctx, "evo.main_ape", "ape", "C01")
     ctx.section(_pipeline_views, ctx, "C01.6")
     ctx.section(_pipeline_inputs, ctx, "C01.7")
+    ctx.section(_helpers, ctx, "C01.8")
 
 
 def _unconditional_after_guard(e: Event) -> bool:
@@ -262,6 +265,19 @@ def _pipeline_inputs(ctx, rule: str):
     n += import_rules(ctx, "c05", ("C05.2", "C05.4"), rule)
     ctx.require(n >= 12, f"{rule}: reader / crop / association instances "
                 f"not found")
+
+
+def _helpers(ctx, rule: str):
+    """the values are compositions of the Lie helpers: the relative pose
+    must be A^-1 * B with the true SE(3) inverse, and the angle must be the
+    norm of the rotation vector (well-conditioned down to 1e-12 of 0 and of
+    pi, which the property quantifies over) — instances of C09.2 / C09.4"""
+    from ..core import import_rules
+    n = import_rules(ctx, "c09", ("C09.2", "C09.4"), rule,
+                     pred=lambda o: o.rule == "C09.4" or any(
+                         k in o.key for k in ("se3_inverse", "relative_se3",
+                                              "so3_from_se3")))
+    ctx.require(n >= 4, f"{rule}: Lie helper instances not found")
 
 
 def _pipeline_views(ctx, rule: str):
